@@ -101,7 +101,18 @@ def _import ():
     def __init__ (self, name, gen): self.name = name; self.gen = gen
   class Plain (object):
     def __init__ (self, name, gen): self.name = name; self.gen = gen
+  # component kinds other than "raises Ev": what a sink may also name as a dependency
+  class CompEmpty (rv.EventMixin):             # an EventMixin that declares an EMPTY event set
+    _eventMixin_events = set()
+    def __init__ (self, name, gen): self.name = name; self.gen = gen
+  class CompAny (rv.EventMixin):               # documented: True = "all events are acceptable"
+    _eventMixin_events = True
+    def __init__ (self, name, gen): self.name = name; self.gen = gen
+  class CompUndeclared (rv.EventMixin):        # an EventMixin that declares nothing (class default None)
+    def __init__ (self, name, gen): self.name = name; self.gen = gen
   P.Ev = Ev; P.Comp = Comp; P.Plain = Plain
+  P.KINDS = {"events": Comp, "empty": CompEmpty, "plain": Plain, "any": CompAny, "undeclared": CompUndeclared}
+  P.KIND_OF = dict((c, k) for k, c in P.KINDS.items())
 
   class SinkBase (object):
     def __init__ (self, w, kind): self.w = w; self.kind = kind
@@ -129,6 +140,9 @@ def _import ():
     def _all_dependencies_met (self): self.w.sink_ready(self)
   class S_shy (SinkBase):
     def _handle_baz_Ev (self, e): self.w.sink_hit(self, "baz")
+    def _all_dependencies_met (self): self.w.sink_ready(self)
+  class S_expl (SinkBase):                     # one handler-derived + two explicitly listed components
+    def _handle_foo_Ev (self, e): self.w.sink_hit(self, "foo")
     def _all_dependencies_met (self): self.w.sink_ready(self)
   class S_la (SinkBase):                       # three event-raising dependencies; used with listen_args variants
     def _handle_foo_Ev (self, e): self.w.sink_hit(self, "foo")
@@ -159,6 +173,7 @@ def _import ():
      {"listen_args": {"foo": {"priority": 10}, "foo_bar": {"priority": -10}}}),
     ("S_both_wild", S_both, ("foo", "foo_bar"),   ("foo", "foo_bar"), True,
      {"listen_args": {None: {"priority": -10}}}),
+    ("S_expl",    S_expl,    ("baz", "foo", "foo_bar"), ("foo",),     True,  {"components": ["foo_bar", "baz"]}),
   ]
   P.SHARED_INIT = ("foo",)                     # what the caller wrote into the shared collection
   _P = P
@@ -443,7 +458,10 @@ class World (object):
     for wid, bound in self.model.fired.items():
       if wid[0] != "s": continue
       for comp in P.SINKS[wid[1]][3]:
-        expected.append(((comp, bound[comp]), wid[1], comp))
+        # a handler is wired iff the component object bound at wiring time raises Ev (declared event set);
+        # for any other kind of object (empty set, plain object, ...) there is nothing to wire
+        if isinstance(self.objects.get((comp, bound[comp])), P.Comp):
+          expected.append(((comp, bound[comp]), wid[1], comp))
     got = sorted(self.probe_hits); expected.sort()
     if got != expected:
       extra = [x for x in got if x not in expected]
@@ -481,9 +499,10 @@ class World (object):
                     % (P.SINKS[kind][0], self.sink_crs.get(kind, 0), exp), P.SINKS[kind][0])
 
   # ---- calls into core ---------------------------------------------------
-  def do_register (self, name):
+  def do_register (self, name, kind=None):
     g = self.model.register(name)
-    obj = (self.P.Plain if name == "qux" else self.P.Comp)(name, g)
+    if kind is None: kind = "plain" if name == "qux" else "events"
+    obj = self.P.KINDS[kind](name, g)
     self.objects[(name, g)] = obj
     if isinstance(obj, self.P.Comp):
       obj.addListener(self.P.Ev, self._ref_listener)       # priority 0, first subscriber
@@ -600,6 +619,7 @@ class World (object):
     st = prm.get("_static")
     if st is None:
       regs = [("reg", n) for n in self.names]
+      regs += [("reg", n, k) for n in self.names for k in prm.get("kinds", ())]   # other kinds of component object
       cwrs = []
       forms = prm["forms"]
       only = prm.get("cwr_masks")               # optional restriction of the waiter alphabet
@@ -632,7 +652,7 @@ class World (object):
     if op[0] == "cwr":
       return "call_when_ready(cb, %s as %s)" % ([n for i, n in enumerate(self.names) if op[1] >> i & 1], op[2])
     if op[0] == "ltd": return "listen_to_dependencies(%s)" % self.P.SINKS[op[1]][0]
-    if op[0] == "reg": return "register(%s)" % op[1]
+    if op[0] == "reg": return "register(%s)" % op[1] + (" as %s object" % op[2] if len(op) > 2 else "")
     if op[0] == "goUp": return "goUp() with GoingUp handlers %r" % (op[1],)
     if op[0] == "release": return "release outstanding deferral #%d" % op[1]
     if op[0] == "take": return "component %d takes a deferral (%s)" % (op[1], "outside a GoingUp handler")
@@ -645,7 +665,7 @@ class World (object):
     self.hist.append(("op", op))
     try:
       k = op[0]
-      if k == "reg": self.do_register(op[1])
+      if k == "reg": self.do_register(op[1], op[2] if len(op) > 2 else None)
       elif k == "cwr":
         self.do_cwr([n for i, n in enumerate(self.names) if op[1] >> i & 1], op[2])
       elif k == "ltd": self.do_ltd(op[1])
@@ -691,7 +711,7 @@ class World (object):
       return ("dict", tuple(sorted(((repr(k), self.canon_val(v, depth + 1)) for k, v in x.items()), key=repr)))
     if isinstance(x, P.SinkBase): return ("sink", x.kind)
     if x is self.core: return "core"
-    if isinstance(x, (P.Comp, P.Plain)): return ("component", x.name, self.model.comps.get(x.name) == x.gen)
+    if type(x) in P.KIND_OF: return ("component", x.name, P.KIND_OF[type(x)], self.model.comps.get(x.name) == x.gen)
     if getattr(x, "c08", None) is not None: return ("w", tuple(sorted(self.model.declared[x.c08])))
     if hasattr(x, "__closure__") and hasattr(x, "__code__"):
       cells = []
@@ -703,7 +723,7 @@ class World (object):
     return type(x).__name__
 
   def canon (self):
-    core = self.core
+    core = self.core; P = self.P
     ws = []
     for e in core._waiters:
       wid = getattr(e[0], "c08", None)
@@ -719,9 +739,10 @@ class World (object):
       if kind not in self.sinks: sinks.append(0)
       elif wid in self.model.fired:
         b = self.model.fired[wid]
-        sinks.append((2, tuple(b[n] == self.model.comps.get(n, 0) for n in sorted(b) if n != "core")))
+        sinks.append((2, tuple((b[n] == self.model.comps.get(n, 0), P.KIND_OF.get(type(self.objects.get((n, b[n])))))
+                               for n in sorted(b) if n != "core")))
       else: sinks.append(1)
-    return (tuple(sorted(core.components)), tuple(ws),
+    return (tuple(sorted((n, P.KIND_OF.get(type(o))) for n, o in core.components.items())), tuple(ws),
             core.running, core.starting_up, len(core._go_up_deferrals), core.scheduler._hasQuit,
             tuple(x[2] for x in self.deferrals),
             tuple(sorted(repr(t) if isinstance(t, (int, str, tuple, float)) else "o" for t in core._go_up_deferrals)),
@@ -764,11 +785,17 @@ def params (cfg):
   # with two and three event-raising dependencies; every order of declaration and (re-)registration
   wiring = dict(nc=3, maxp=3, depth=cfg.pick(6, 7), dev=1, sinks=[10, 11, 12, 13, 2], goup=[""], noquit=True,
                 cwr_masks=[4], forms=(("str",), ("list",)))
-  if cfg.quick: return [q, shared, defer, wiring]
+  # kinds of component object a sink may name: raises events / EventMixin with an empty event set / plain object, by
+  # handler name and by explicit list.  (Kinds "any" = `_eventMixin_events = True` and "undeclared" = class default None
+  # exist as well; on the current tree both make revent.autoBindEvents raise TypeError inside done(), reported to the lead.)
+  kinds = dict(nc=3, maxp=2, depth=5, dev=1, sinks=[14, 3, 2, 0, 10], goup=[""], noquit=True, cwr_masks=[4],
+               kinds=["empty", "plain", "any", "undeclared"],
+               forms=(("str",), ("list",)))
+  if cfg.quick: return [q, shared, defer, wiring, kinds]
   deep = dict(q, maxp=4, depth=6)
   wide = dict(nc=4, maxp=5, depth=4, dev=3, sinks=[0, 1, 2, 3, 4, 5], goup=GOUP_VARIANTS,
               forms=(("str", "list"), ("list", "tuple", "set")))
-  return [deep, wide, shared, defer, wiring]
+  return [deep, wide, shared, defer, wiring, dict(kinds, depth=6, maxp=3)]
 
 
 def public (prm):
@@ -805,7 +832,7 @@ def _expand (args):
 
 
 RULE = ("breadth-first over canonical states of a real POXCore: every history of <=DEPTH operations from "
-        "{register(c) incl. re-registration; call_when_ready(cb, every subset of the components in the given argument "
+        "{register(c) incl. re-registration (object kinds: raises events; where stated also EventMixin with an empty event set / `True` / nothing declared, plain object - a sink naming them must still complete its wiring, handlers are wired only to objects that raise the event); call_when_ready(cb, every subset of the components in the given argument "
         "forms, the empty set as set()/default []/()); listen_to_dependencies(one of the sink classes: underscore "
         "component names, explicit components, short attrs, dependency on core, with/without completion callback, "
         "`components=` being ONE set / list object per execution shared by two sink kinds - the caller's object must "
@@ -940,7 +967,8 @@ def run (cfg):
     "components=%s DEPTH=%d MAXP=%d DEV=%d sinks=%s forms=%s goUp=%s%s"
     % (NAMES[:p["nc"]], p["depth"], p["maxp"], p["dev"], [P.SINKS[k][0] for k in p["sinks"]], p["forms"], p["goup"],
        (" no-quit" if p.get("noquit") else "") + (" waiters-only-on-masks=%s" % p["cwr_masks"] if p.get("cwr_masks") else "")
-       + (" deferral-takers=%d(<=%d held each)" % (p["takers"], p["hold_max"]) if p.get("takers") else ""))
+       + (" deferral-takers=%d(<=%d held each)" % (p["takers"], p["hold_max"]) if p.get("takers") else "")
+       + (" register-also-as=%s" % (p["kinds"],) if p.get("kinds") else ""))
     for p in prms))
   rep.bound = dict(configurations=[dict(depth=p["depth"], deviations=p["dev"], components=p["nc"],
                                         pending_waiters=p["maxp"], sinks=len(p["sinks"])) for p in prms])
